@@ -310,6 +310,7 @@ impl CoreOp {
 //@@ END
 }
 
+#[verifier::loop_isolation(false)]
 //@@ FN src/generate/convert/common.rs | free | convert_vec
 //@@ ITERNAME
 //@@< for ast in node_vec
